@@ -63,9 +63,20 @@ where
 
     fn call(&mut self, req: http::request::Parts) -> Self::Future {
         let config = self.config.clone();
-        let Some(host) = req.uri.host().map(String::from) else {
+        let Some(host) = req.uri.host() else {
             return future::TlsConnectionFuture::error(TlsConnectionError::NoDomain);
         };
+
+        // IPv6 literals are bracketed in a URI, but not as a TLS server name.
+        let host = host
+            .strip_prefix('[')
+            .and_then(|host| host.strip_suffix(']'))
+            .unwrap_or(host)
+            .to_owned();
+
+        if rustls::pki_types::ServerName::try_from(host.as_str()).is_err() {
+            return future::TlsConnectionFuture::error(TlsConnectionError::InvalidDomain(host));
+        }
 
         let future = self.transport.connect(req);
 
